@@ -68,9 +68,9 @@ var (
 	poolOnCancel = newPool("ignore", 40, "return", 35, "error", 25)
 	poolN        = newPool("1", 30, "2", 30, "0", 20, "3", 20)
 	poolLen      = newPool("12", 10, "11", 10, "10", 10, "9", 10, "8", 10, "7", 10, "6", 10, "5", 9, "4", 8, "3", 6, "2", 4, "1", 3).first("1")
-	poolLast     = newPool("sub", 34, "complete", 22, "init", 8, "ping", 4, "pong", 3, "terminate", 4, "unknown", 6, "nonjson", 6, "shape", 7, "srvtype", 4, "empty", 2)
-	poolInner    = newPool("sub", 44, "complete", 28, "init", 3, "ping", 5, "pong", 4, "terminate", 1, "unknown", 2, "nonjson", 2, "shape", 7, "srvtype", 1, "empty", 3)
-	poolInnerGWS = newPool("sub", 40, "complete", 26, "init", 5, "ping", 2, "pong", 2, "terminate", 3, "unknown", 5, "nonjson", 5, "shape", 7, "srvtype", 3, "empty", 2)
+	poolLast     = newPool("sub", 32, "complete", 20, "init", 8, "ping", 4, "pong", 3, "terminate", 4, "unknown", 6, "nonjson", 6, "shape", 6, "srvtype", 9, "empty", 2)
+	poolInner    = newPool("sub", 44, "complete", 27, "init", 3, "ping", 5, "pong", 4, "terminate", 1, "unknown", 2, "nonjson", 2, "shape", 6, "srvtype", 3, "empty", 3)
+	poolInnerGWS = newPool("sub", 39, "complete", 25, "init", 5, "ping", 2, "pong", 2, "terminate", 3, "unknown", 4, "nonjson", 4, "shape", 6, "srvtype", 8, "empty", 2)
 	pct7, pct10  = pct(7), pct(10)
 	pct30        = pct(30)
 	pct35, pct40 = pct(35), pct(40)
@@ -140,7 +140,7 @@ func genRaw(proto string) *rapid.Generator[raw] {
 		}
 		r.Last = poolLast.draw(t, "lastkind")
 		r.ID = poolID.draw(t, "id")
-		r.V = uniform(t, "v", 0, 11)
+		r.V = uniform(t, "v", 0, 35)
 		if pct7.draw(t, "badpayload") == "y" {
 			r.BadSub = atoi(poolBadSub.draw(t, "subv"))
 		}
@@ -241,7 +241,13 @@ func genSeq(proto string) func(t *rapid.T) Case {
 				if proto == protoGWS {
 					live = map[string]bool{}
 				}
-			case "ping", "unknown", "nonjson", "shape", "srvtype":
+			case "srvtype":
+				m.V = r.V
+				m.ID = r.ID
+				if len(liveIDs) > 0 && r.Aimed {
+					m.ID = liveIDs[r.Aim%len(liveIDs)]
+				}
+			case "ping", "unknown", "nonjson", "shape":
 				m.V = r.V
 			}
 			c.Msgs = append(c.Msgs, m)
